@@ -7,10 +7,18 @@ comma-separated ints (`1,2,0`; a network node or Voronoi index is a single int);
   scenario grid <moore|vn|hex> <torus 0|1> <cap|-> <d1,d2,...>
   scenario net <directed 0|1> <cap|-> <n> [a-b ...]
   scenario vor <cap|-> <n> p:x,y ... t:a,b,c ...     (t: the exact Delaunay triangles, for the model)
+  scenario vor d <n> p:... t:... a:num/den ...         (default capacity_function; a: the exact Voronoi cell areas, one per cell)
   new cell|fixed|g2d | set a c|- | moveto a c | moverel a key | move a Dir k | remove a
   tryrandom 0|1 | randempty d... | randcell d...           -> result + full observation dump
   conns c | nbhd c r ic | nbprop c | mask c r ic           -> result only
   nbagents c r ic                                          -> agents in the (memoised) neighbourhood, sorted
+  connect c c2 key|- | disconnect c c2                     -> result only (`Cell.connect(other, key)` / `Cell.disconnect(other)`
+                                                              after construction; `-`: the default key `other.coordinate`)
+  coll <expr> cells|agents|len|same | has c | get c | randcell d... | randagent d...   -> result only (CellCollection API)
+      <expr> = <base>[+<filter>:<at_most>]...   base = all | empties | nb:<c>:<r>:<ic> | nbp:<c>   (all_cells, empties,
+      get_neighborhood, neighborhood); filter = none|empty|occupied|full|notfull; at_most = inf | <int> | <num>/<den> (float).
+      Collections whose order the API fixes (all, empties, their selections) are compared in order, with the selected
+      cell / agent; neighbourhood-based ones as sets (sorted) and random picks by position `pos=i/len` and draws `used=k`.
 """
 from __future__ import annotations
 
@@ -250,10 +258,31 @@ def exc_name(e):
         return "Key"
     if isinstance(e, IndexError):
         return "Index"
+    if isinstance(e, TypeError) and "unhashable" in msg:
+        return "Type"
     raise e
 
 
-QUERIES = ("conns", "nbhd", "nbprop", "mask", "nbagents")
+EDITS = ("connect", "disconnect")
+QUERIES = ("conns", "nbhd", "nbprop", "mask", "nbagents", "coll") + EDITS  # lines answered with a result only (no dump)
+
+FILTERS = {
+    "none": None,
+    "empty": lambda cell: cell.is_empty,
+    "occupied": lambda cell: not cell.is_empty,
+    "full": lambda cell: cell.is_full,
+    "notfull": lambda cell: not cell.is_full,
+}
+
+
+def parse_at_most(m):
+    """`inf` -> None (argument omitted), `<int>` -> int, `<a>/<b>` -> the float a/b"""
+    if m == "inf":
+        return None
+    if "/" in m:
+        a, b = m.split("/")
+        return int(a) / int(b)
+    return int(m)
 
 
 class Header:
@@ -268,7 +297,10 @@ class Header:
             self.directed, self.cap, self.n = w[2] == "1", parse_opt_int(w[3]), int(w[4])
             self.edges = [tuple(int(x) for x in e.split("-")) for e in w[5:]]
         elif self.kind == "vor":
-            self.cap, self.n = parse_opt_int(w[2]), int(w[3])
+            # `d`: the default `capacity_function` (capacity = int(area * 500) per cell, areas given exactly as a:num/den)
+            self.default_cap = w[2] == "d"
+            self.cap, self.n = (None if self.default_cap else parse_opt_int(w[2])), int(w[3])
+            self.areas = [Fraction(t[2:]) for t in w[4:] if t.startswith("a:")]
             self.points = [parse_tuple(t[2:]) for t in w[4:] if t.startswith("p:")]
             # optional `s:k`: the centroids are the integer points divided by k (connections are scale-invariant,
             # the code's fixed-size Bowyer-Watson frame is not)
@@ -276,6 +308,12 @@ class Header:
             self.tris = [parse_tuple(t[2:]) for t in w[4:] if t.startswith("t:")]
         else:
             raise ValueError(w)
+
+    def capof(self, name):
+        """the capacity the cell named `name` must have (None: unlimited)"""
+        if self.kind == "vor" and self.default_cap:
+            return int(self.areas[int(name)] * 500)
+        return self.cap
 
     def key(self, s):
         """protocol name -> key of `space._cells` / `connections`"""
@@ -309,8 +347,11 @@ class Impl:
                 self.space = ds.Network(G, capacity=h.cap, random=self.rng)
             else:
                 cap = h.cap
-                self.space = ds.VoronoiGrid([[x / h.scale for x in p] for p in h.points], capacity=cap, random=self.rng,
-                                            capacity_function=lambda area: cap)
+                pts = [[x / h.scale for x in p] for p in h.points]
+                if h.default_cap:
+                    self.space = ds.VoronoiGrid(pts, random=self.rng)
+                else:
+                    self.space = ds.VoronoiGrid(pts, capacity=cap, random=self.rng, capacity_function=lambda area: cap)
         except ValueError:
             self.space = None
         if self.space is not None:
@@ -375,8 +416,92 @@ class Impl:
             raise ValueError(w)
         return "ok"
 
+    def build_coll(self, expr):
+        """collection expression -> (CellCollection, order fixed by the API, last select returned its receiver)"""
+        sp = self.space
+        parts = expr.split("+")
+        b = parts[0].split(":")
+        if b[0] == "all":
+            coll = sp.all_cells
+        elif b[0] == "empties":
+            coll = sp.empties
+        elif b[0] == "nb":
+            coll = sp[self.h.key(b[1])].get_neighborhood(int(b[2]), b[3] == "1")
+        elif b[0] == "nbp":
+            coll = sp[self.h.key(b[1])].neighborhood
+        else:
+            raise ValueError(expr)
+        same = False
+        for p in parts[1:]:
+            f, m = p.split(":")
+            kw = {}
+            if f != "none":
+                kw["filter_func"] = FILTERS[f]
+            if parse_at_most(m) is not None:
+                kw["at_most"] = parse_at_most(m)
+            new = coll.select(**kw)
+            same, coll = new is coll, new
+        return coll, b[0] in ("all", "empties"), same
+
+    def coll_line(self, w):
+        coll, ordered, same = self.build_coll(w[1])
+        verb = w[2]
+        cells = list(coll)
+        # the views of one collection must agree with each other, and it must carry the space's generator
+        odd = []
+        if list(coll.cells) != cells or len(coll) != len(cells):
+            odd.append("cells/iter/len-differ")
+        if coll.random is not self.rng:
+            odd.append("other-generator")
+        if any(coll[c] is not c._agents for c in cells):
+            odd.append("not-the-live-agent-lists")
+        tail = (" INCONSISTENT:" + ",".join(odd)) if odd else ""
+        names = [self.cname(c) for c in cells]
+        if verb == "cells":
+            if not ordered:
+                names = [fmt_name(k) for k in sorted(parse_tuple(n) for n in names)]
+            return "ok " + " ".join(names) + tail
+        if verb == "agents":
+            ids = [a._vidx for a in coll.agents]
+            return "ok " + " ".join(map(str, ids if ordered else sorted(ids))) + tail
+        if verb == "len":
+            return f"ok {len(coll)}" + tail
+        if verb == "same":
+            if len(w[1].split("+")) < 2:
+                raise ValueError(w)
+            return f"ok {int(same)}" + tail
+        if verb == "has":
+            return f"ok {int(self.space[self.h.key(w[3])] in coll)}" + tail
+        if verb == "get":
+            return "ok " + ".".join(str(a._vidx) for a in coll[self.space[self.h.key(w[3])]]) + tail
+        if verb in ("randcell", "randagent"):
+            draws = [int(x) for x in w[3:]]
+            self.rng.script = list(draws)
+            if verb == "randcell":
+                pop = cells
+                x = coll.select_random_cell()
+                name = self.cname(x)
+            else:
+                pop = list(coll.agents)
+                x = coll.select_random_agent()
+                name = str(x._vidx)
+            used = len(draws) - len(self.rng.script)
+            pos = next((i for i, y in enumerate(pop) if y is x), None)
+            if pos is None:
+                tail += " INCONSISTENT:result-not-in-population"
+            return ("ok " + name if ordered else "ok") + f" pos={pos}/{len(pop)} used={used}" + tail
+        raise ValueError(w)
+
     def query(self, w):
         sp, k = self.space, w[0]
+        if k == "coll":
+            return self.coll_line(w)
+        if k == "connect":
+            sp[self.h.key(w[1])].connect(sp[self.h.key(w[2])], None if w[3] == "-" else self.h.key(w[3]))
+            return "ok"
+        if k == "disconnect":
+            sp[self.h.key(w[1])].disconnect(sp[self.h.key(w[2])])
+            return "ok"
         if k == "conns":
             cell = sp[self.h.key(w[1])]
             items = sorted((tuple(kk) if isinstance(kk, tuple) else (kk,), v) for kk, v in cell.connections.items())
@@ -491,6 +616,41 @@ def spec_connections(h):
     return res
 
 
+def apply_edit(conn, h, w):
+    """a `connect` / `disconnect` line applied to the spec connections {cell: {key: cell}} (a dict assignment /
+    the deletion of every key leading to the other cell); lines the implementation has to reject change nothing"""
+    try:
+        c, c2 = h.key(w[1]), h.key(w[2])
+    except ValueError:
+        return
+    if c not in conn or c2 not in conn:
+        return
+    if w[0] == "connect":
+        if w[3] == "-":
+            if h.kind == "vor":
+                return  # the coordinate of a Voronoi cell is a list: not a dict key
+            key = c2
+        else:
+            key = h.key(w[3])
+        conn[c][key] = c2
+    else:
+        for k in [k for k, v in conn[c].items() if v == c2]:
+            del conn[c][k]
+
+
+def expect_edit(conn, h, w):
+    """the result a `connect` / `disconnect` line must have"""
+    try:
+        c, c2 = h.key(w[1]), h.key(w[2])
+    except ValueError:
+        return None
+    if c not in conn or c2 not in conn:
+        return "err Key"
+    if w[0] == "connect" and w[3] == "-" and h.kind == "vor":
+        return "err Type"
+    return "ok"
+
+
 def within(conn, c, r):
     """cells within r connection hops of c (0 hops = c itself)"""
     seen = {c}
@@ -506,6 +666,113 @@ def within(conn, c, r):
         if not frontier:
             break
     return seen
+
+
+def spec_coll(expr, h, conn, names, occ, cap):
+    """a collection expression from first principles: (error | None, cell names, order fixed, exact).
+    `occ`: {cell name: [agent ids]} as the last dump showed it; `exact` is False where only the size and membership
+    are determined (a bounded selection out of a neighbourhood, whose order the property does not fix) or where the
+    documentation is silent (a float `at_most` above 1)"""
+    parts = expr.split("+")
+    b = parts[0].split(":")
+    ordered, exact = b[0] in ("all", "empties"), True
+    if b[0] == "all":
+        cells = list(names)
+    elif b[0] == "empties":
+        cells = [n for n in names if not occ.get(n)]
+    else:
+        try:
+            key = h.key(b[1])
+        except ValueError:
+            return "Key", None, ordered, exact
+        if key not in conn:
+            return "Key", None, ordered, exact
+        r, ic = (int(b[2]), b[3] == "1") if b[0] == "nb" else (1, False)
+        if r < 1:
+            return "Value", None, ordered, exact
+        reach = within(conn, key, r)
+        if not ic:
+            reach.discard(key)
+        cells = [fmt_name(k) for k in sorted(k if isinstance(k, tuple) else (k,) for k in reach)]
+    capof = cap if isinstance(cap, dict) else {n: cap for n in names}
+
+    def full(n):
+        return capof[n] is not None and len(occ.get(n, [])) == capof[n]
+
+    preds = {"none": lambda n: True, "empty": lambda n: not occ.get(n), "occupied": lambda n: bool(occ.get(n)),
+             "full": full, "notfull": lambda n: not full(n)}
+    for p in parts[1:]:
+        f, m = p.split(":")
+        match = [n for n in cells if preds[f](n)]
+        if m == "inf":
+            cells = match
+            continue
+        if "/" in m:
+            a, d = (int(x) for x in m.split("/"))
+            if a > d:
+                exact = False  # "at most 2.5 cells": the documentation does not say
+                limit = -(-a // d)
+            else:
+                limit = len(cells) * a // d  # "at most that fraction of original number of cells", rounded down
+        else:
+            limit = max(0, int(m))
+        if not ordered and limit < len(match):
+            exact = False
+        cells = match[:limit]
+    return None, cells, ordered, exact
+
+
+def oracle_coll(line, o, h, conn, names, occ, cap):
+    """the clauses about one `coll` line: the views of a collection are those of its cells *now*, selections are
+    order-preserving filters, random selections draw once from the collection's own generator over its population"""
+    bad = []
+    w = line.split()
+    if "INCONSISTENT" in o:
+        bad.append(f"coll-views: `{line}` -> {o}")
+        return bad
+    err, cells, ordered, exact = spec_coll(w[1], h, conn, names, occ, cap)
+    verb = w[2]
+    if err:
+        if o != "err " + err:
+            bad.append(f"coll-reject: `{line}` -> {o}, expected err {err}")
+        return bad
+    agents = [a for n in cells for a in occ.get(n, [])]
+    ans = o.split()[1:] if o.startswith("ok") else None
+    if verb == "len":
+        if exact and o != f"ok {len(cells)}":
+            bad.append(f"coll-len: `{line}` -> {o}, the collection has {len(cells)} cells")
+    elif verb == "cells" and exact:
+        if ans != cells:
+            bad.append(f"coll-cells: `{line}` -> {o}, expected {cells}")
+    elif verb == "agents" and exact:
+        want = agents if ordered else sorted(agents, key=int)
+        if ans != want:
+            bad.append(f"coll-agents: `{line}` -> {o}, the cells hold {want}")
+    elif verb == "has" and exact:
+        try:
+            known = h.key(w[3]) in conn
+        except ValueError:
+            known = False
+        want = ("ok 1" if w[3] in cells else "ok 0") if known else "err Key"
+        if o != want:
+            bad.append(f"coll-in: `{line}` -> {o}, expected {want}")
+    elif verb == "get" and exact:
+        want = "ok " + ".".join(occ.get(w[3], [])) if w[3] in cells else "err Key"
+        if o.strip() != want.strip():
+            bad.append(f"coll-getitem: `{line}` -> {o}, expected {want}")
+    elif verb in ("randcell", "randagent") and exact:
+        pop = cells if verb == "randcell" else agents
+        draws = [int(x) for x in w[3:]]
+        if not pop:
+            want = "err Index"
+        elif not draws:
+            want = "err Script"
+        else:
+            i = draws[0] % len(pop)
+            want = (f"ok {pop[i]}" if ordered else "ok") + f" pos={i}/{len(pop)} used=1"
+        if o != want:
+            bad.append(f"coll-random: `{line}` -> {o}, one draw over the population {pop if ordered else sorted(pop)} gives {want}")
+    return bad
 
 
 # --------------------------------------------------------------------------------------
@@ -559,6 +826,50 @@ def general_position(points, extra=()):
     return True
 
 
+def circumcenter(a, b, c):
+    (ax, ay), (bx, by), (cx, cy) = a, b, c
+    d = 2 * (ax * (by - cy) + bx * (cy - ay) + cx * (ay - by))
+    a2, b2, c2 = ax * ax + ay * ay, bx * bx + by * by, cx * cx + cy * cy
+    return Fraction(a2 * (by - cy) + b2 * (cy - ay) + c2 * (ay - by), d), Fraction(a2 * (cx - bx) + b2 * (ax - cx) + c2 * (bx - ax), d)
+
+
+def voronoi_areas(points, scale=1):
+    """exact areas (Fractions, in true units) of the Voronoi cells as `_build_cell_polygons` defines them: around each centroid the
+    polygon of the circumcentres of the Delaunay triangles of centroids + the four corners of the code's 9999-frame
+    (`points` are integers in units of 1/scale).  None if a walk around a centroid does not close (degenerate input)."""
+    frame = [(x * scale, y * scale) for x, y in FRAME]
+    allp = list(points) + frame
+    n = len(points)
+    tris = []
+    for i, j, k in itertools.combinations(range(len(allp)), 3):
+        if i >= n:
+            continue
+        a, b, c = allp[i], allp[j], allp[k]
+        if orient(a, b, c) != 0 and all(incircle(a, b, c, p) <= 0 for t, p in enumerate(allp) if t not in (i, j, k)):
+            tris.append((i, j, k))
+    areas = []
+    for v in range(n):
+        inc = [t for t in tris if v in t]
+        if len(inc) < 3:
+            return None
+        cur = inc[0]
+        start, nxt = (x for x in cur if x != v)
+        order = [cur]
+        while True:
+            cand = [t for t in inc if t not in order and nxt in t]
+            if not cand:
+                break
+            cur = cand[0]
+            order.append(cur)
+            nxt = next(x for x in cur if x != v and x != nxt)
+        if len(order) != len(inc) or nxt != start:
+            return None
+        poly = [circumcenter(*(allp[x] for x in t)) for t in order]
+        twice = sum(poly[i][0] * poly[(i + 1) % len(poly)][1] - poly[(i + 1) % len(poly)][0] * poly[i][1] for i in range(len(poly)))
+        areas.append(abs(twice) / 2 / (scale * scale))
+    return areas
+
+
 def voronoi_ok(points, scale=1):
     """general position, and the code's finite 9999-frame does not change the triangulation
     (`points` are integers in units of 1/scale, so the frame is scaled up instead)"""
@@ -601,10 +912,39 @@ def gen_net_header(R, max_nodes=8, caps=(None, None, 1, 1, 2, 3), directed_p=0.1
     return f"scenario net {int(directed)} {'-' if cap is None else cap} {n} " + " ".join(f"{a}-{b}" for a, b in edges)
 
 
-FALLBACK_POINTS = [(0, 0), (7, 1), (3, 6), (-4, 5), (-2, -6)]
+FALLBACK_POINTS = [(-3, -6), (6, -9), (3, 4), (-9, 5), (-1, -2)]  # in general position, also with the frame corners
 
 
-def gen_vor_header(R, max_points=7, caps=(None, None, 1, 1, 2, 3), span=9):
+def gen_vor_default_header(R, max_points=7):
+    """a VoronoiGrid with the default capacity_function: a small cluster in units of 1/16 .. 1/64 so that inner cells get
+    capacities of a few agents (int(area * 500)); None if no suitable point set was found"""
+    for _ in range(60):
+        scale = R.choice([16, 32, 32, 64])
+        n = R.randint(4, max_points)
+        span = R.choice([3, 4, 5, 6])
+        pts = [(R.randint(-span, span), R.randint(-span, span)) for _ in range(n)]
+        tris = voronoi_ok(pts, scale)
+        if tris is None:
+            continue
+        areas = voronoi_areas(pts, scale)
+        if areas is None:
+            continue
+        caps = [int(a * 500) for a in areas]
+        # the float area must not sit on a rounding edge of int(area * 500) where it could matter
+        if any(c < 10 ** 6 and not (Fraction(1, 10 ** 6) < a * 500 - c < 1 - Fraction(1, 10 ** 6)) for a, c in zip(areas, caps)):
+            continue
+        if not any(1 <= c <= 4 for c in caps) and R.random() < 0.8:
+            continue
+        return (f"scenario vor d {n} " + " ".join(f"p:{x},{y}" for x, y in pts) + " " + " ".join(f"t:{a},{b},{c}" for a, b, c in tris)
+                + f" s:{scale} " + " ".join(f"a:{a.numerator}/{a.denominator}" for a in areas))
+    return None
+
+
+def gen_vor_header(R, max_points=7, caps=(None, None, 1, 1, 2, 3), span=9, default_cap=False):
+    if default_cap:
+        hd = gen_vor_default_header(R, max_points)
+        if hd is not None:
+            return hd
     scale = 1
     for _ in range(50):
         n = R.randint(3, max_points)
@@ -630,13 +970,13 @@ def gen_vor_header(R, max_points=7, caps=(None, None, 1, 1, 2, 3), span=9):
             + " ".join(f"t:{a},{b},{c}" for a, b, c in tris) + (f" s:{scale}" if scale != 1 else ""))
 
 
-def gen_header(R, **kw):
+def gen_header(R, default_caps=False, **kw):
     k = R.random()
     if k < 0.6:
         return gen_grid_header(R, **kw)
     if k < 0.85:
         return gen_net_header(R)
-    return gen_vor_header(R)
+    return gen_vor_header(R, default_cap=default_caps and R.random() < 0.5)
 
 
 def cell_names(h):
@@ -684,12 +1024,66 @@ def gen_draws(R, impl, want_hit):
     return [R.randrange(0, 3 * n)] if want_hit else []
 
 
-def gen_c06(R, rejecting=False, n_ops=None, header=None):
-    hd = header or (gen_header(R) if not rejecting else
+def gen_coll(R, h, names, impl=None, agents=True):
+    """a `coll` line: a collection expression (all_cells / empties / a neighbourhood, optionally narrowed by `select`
+    steps) and one use of the CellCollection API on it"""
+    near = None
+    if impl is not None and R.random() < 0.7:
+        placed = [a.cell for a in impl.agents if getattr(a, "cell", None) is not None and id(a.cell) in impl.name]
+        if placed:
+            near = impl.cname(R.choice(placed))
+    k = R.random()
+    if k < 0.30:
+        base = "all"
+    elif k < 0.50:
+        base = "empties"
+    elif k < 0.90:
+        c = near if near is not None else R.choice(names)
+        if R.random() < 0.03:
+            c = ",".join(str(d) for d in h.dims) if h.kind == "grid" else str(h.n + 2)  # no such cell
+        base = f"nb:{c}:{R.choice([1, 1, 1, 2, 2, 3, 0])}:{R.randint(0, 1)}"
+    else:
+        base = f"nbp:{near if near is not None else R.choice(names)}"
+    ordered = base in ("all", "empties")
+    expr, bounded = base, False
+    for _ in range(R.choice([0, 0, 0, 1, 1, 1, 2])):
+        f = R.choice(["none", "none", "empty", "occupied", "occupied", "full", "notfull"])
+        if ordered:
+            m = R.choice(["inf", "inf", "inf", "0", "1", "2", "3", "-1", "1/2", "1/4", "3/4", "1/1", "0/1", "3/2", "5/2"])
+        else:
+            m = R.choice(["inf", "inf", "inf", "inf", "1", "2", "1/2"])
+        bounded = bounded or (m != "inf")
+        expr += f"+{f}:{m}"
+        if bounded and not ordered:
+            break  # what a bounded selection keeps out of a neighbourhood depends on the order inside it: nothing may follow
+    if not ordered and bounded:
+        # which cells a bounded selection keeps out of a neighbourhood depends on the order inside it: only sizes compared
+        verbs = ["len", "len", "same"]
+    else:
+        verbs = ["cells", "cells", "agents", "agents", "len", "has", "get", "randcell", "randcell", "randagent", "randagent"]
+        if "+" in expr:
+            verbs.append("same")
+        if not agents:
+            verbs = [v for v in verbs if v not in ("agents", "randagent", "get")] + ["cells", "has"]
+    verb = R.choice(verbs)
+    if verb in ("has", "get"):
+        c = near if near is not None and R.random() < 0.5 else R.choice(names)
+        if R.random() < 0.05:
+            c = ",".join(str(d + 1) for d in h.dims) if h.kind == "grid" else str(h.n + 1)
+        return f"coll {expr} {verb} {c}"
+    if verb in ("randcell", "randagent"):
+        draws = [R.randrange(60) for _ in range(R.choice([0, 1, 1, 1, 1, 1, 2, 3]))]
+        return f"coll {expr} {verb} " + " ".join(map(str, draws))
+    return f"coll {expr} {verb}"
+
+
+def gen_c06(R, rejecting=False, n_ops=None, header=None, edits=False, default_caps=False):
+    hd = header or (gen_header(R, default_caps=default_caps) if not rejecting else
                     R.choice([gen_grid_header(R, max_size=3, caps=(1, 1, 1, 2), max_cells=12),
                               gen_grid_header(R, max_size=3, caps=(1, 1, 1, 2), max_cells=12),
                               gen_net_header(R, max_nodes=5, caps=(1, 1, 2)),
-                              gen_vor_header(R, max_points=5, caps=(1, 1, 2))]))
+                              gen_vor_header(R, max_points=5 + default_caps, caps=(1, 1, 2),
+                                             default_cap=default_caps and R.random() < 0.5)]))
     lines = [hd]
     impl = Impl(hd.split())
     h = impl.h
@@ -731,6 +1125,21 @@ def gen_c06(R, rejecting=False, n_ops=None, header=None):
             m = g = None
         m = a if m is None else m
         g = a if g is None else g
+        if R.random() < (0.05 if rejecting else 0.12):
+            # the CellCollection API on all_cells / empties / neighbourhoods / selections, at the current occupancy
+            emit(gen_coll(R, h, names, impl).rstrip())
+            continue
+        if edits and R.random() < 0.05:
+            # connections edited after construction, mostly at the cell of an agent that can move: later relative moves
+            # and neighbourhood views follow the edited structure
+            cell = impl.agents[m].cell if m < na else None
+            nbrs = {impl.cname(c): [impl.cname(v) for v in c.connections.values()] for c in impl.space.all_cells}
+            e = gen_edit(R, h, names, near=impl.cname(cell) if cell is not None else None, nbrs=nbrs)
+            q = f"nbagents {e.split()[1]} {R.choice([1, 1, 2])} {R.randint(0, 1)}" if R.random() < 0.6 else None
+            for l in (q, e, q):
+                if l:
+                    emit(l)
+            continue
         if rejecting:
             # mostly calls that are likely to be rejected, interleaved with valid ones
             full = [n for n in names if impl.space[h.key(n)].is_full]
@@ -798,15 +1207,24 @@ def oracle_c06(sc, obs, reject_clause=True):
     if obs[0] != "ok":
         return bad
     names = cell_names(h)
-    cap = h.cap
+    capof = {n: h.capof(n) for n in names}
     prev = None
-    conn = None
+    conn = spec_connections(h) if any(l.split()[0] in EDITS + ("nbagents", "coll") for l in sc.lines[1:]) else None
     for line, o in zip(sc.lines[1:], obs[1:]):
         w = line.split()
         if w[0] in QUERIES:
+            if w[0] == "coll":
+                pocc = {t.partition(":")[0]: t.partition(":")[2].split(".") for t in prev["occ"]} if prev else {}
+                bad += oracle_coll(line, o, h, conn, names, pocc, capof)
+            if w[0] in EDITS:
+                # connections edited after construction: the neighbourhoods below are those of the edited structure
+                want = expect_edit(conn, h, w)
+                if want is not None and o != want:
+                    bad.append(f"edit: `{line}` -> {o}, expected {want}")
+                if want == "ok":
+                    apply_edit(conn, h, w)
             if w[0] == "nbagents" and prev is not None and o.startswith("ok") and int(w[2]) >= 1:
                 # a (memoised) neighbourhood shows the agents that are in its cells *now*
-                conn = conn or spec_connections(h)
                 key = h.key(w[1])
                 if key in conn:
                     cells = within(conn, key, int(w[2]))
@@ -837,21 +1255,19 @@ def oracle_c06(sc, obs, reject_clause=True):
                     bad.append(f"mirror: after `{line}` agent {a} reports no cell but is listed in {where}")
             elif where != [c]:
                 bad.append(f"mirror: after `{line}` agent {a} reports cell {c} but is listed in {where}")
-        # capacity
-        if cap:
-            for n in names:
-                if len(occ[n]) > cap:
-                    bad.append(f"capacity: after `{line}` cell {n} holds {len(occ[n])} > {cap}")
+        # capacity (per cell: a VoronoiGrid with the default capacity_function gives every cell its own)
+        for n in names:
+            if capof[n] and len(occ[n]) > capof[n]:
+                bad.append(f"capacity: after `{line}` cell {n} holds {len(occ[n])} > {capof[n]}")
         # emptiness views
         truth = [n for n in names if not occ[n]]
         if d["empty"] != truth:
             bad.append(f"view-is_empty: after `{line}` is_empty cells {d['empty']} != {truth}")
-        if cap is not None:
-            tf = [n for n in names if len(occ[n]) == cap]
-            if d["full"] != tf:
-                bad.append(f"view-is_full: after `{line}` is_full cells {d['full']} != {tf}")
-        elif d["full"]:
-            bad.append(f"view-is_full: after `{line}` cells {d['full']} full without a capacity")
+        # is_full: exactly the cells holding as many agents as their capacity (capacity 0 — a tiny Voronoi cell under the
+        # default capacity_function — is outside the property's quantifier and skipped)
+        tf = [n for n in names if capof[n] and len(occ[n]) == capof[n]]
+        if [n for n in d["full"] if capof[n] != 0] != tf:
+            bad.append(f"view-is_full: after `{line}` is_full cells {d['full']} != {tf}")
         if h.kind == "grid":
             if d["layer"] != truth:
                 bad.append(f"view-layer: after `{line}` grid.empty.data true at {d['layer']} != empty cells {truth}")
@@ -887,14 +1303,26 @@ def tags_c06(sc, obs):
         yield "torus:" + w0[3]
         yield "cap:" + w0[4]
     else:
-        yield "cap:" + (w0[3] if w0[1] == "net" else w0[2])
+        yield "cap:" + (w0[3] if w0[1] == "net" else w0[2] if w0[2] != "d" else "default-capacity-function")
+        if w0[2] == "d":
+            h = Header(w0)
+            for c in sorted({min(h.capof(n), 9) for n in cell_names(h)}):
+                yield f"voronoi-default-capacity:{c if c < 9 else '9+'}"
     prev = None
     for l, o in zip(sc.lines[1:], obs[1:]):
         w = l.split()
         res = o.split(" | ")[0]
         yield "op:" + w[0]
+        if w[0] == "coll":
+            yield "coll:" + w[2]
+            yield "coll-base:" + w[1].split("+")[0].split(":")[0] + ("+select" if "+" in w[1] else "")
+            if w[2] in ("randcell", "randagent") and res.startswith("ok") and len(w) > 4:
+                yield "coll:spare-draws-left-alone"
         if res.startswith("err"):
             yield f"reject:{w[0]}:{res.split()[1]}"
+        if w[0] == "move" and w0[1] == "grid" and w0[2] == "hex":
+            diag = w[2].lower() not in ("n", "north", "up", "s", "south", "down", "e", "east", "right", "w", "west", "left", "back")
+            yield f"hex-move:{'diagonal' if diag else 'cardinal'}:{'1' if w[3] == '1' else 'k' if int(w[3]) > 1 else '0'}:{res.split()[0]}"
         if w[0] == "randempty" and res.startswith("ok"):
             yield "randempty:" + ("retry" if len(w) > 2 else "first-draw")
         if w[0] in PLACING and res == "ok" and prev is not None:
@@ -970,6 +1398,31 @@ def exhaustive_c07(tier):
     return out
 
 
+def edit_sweeps():
+    """connections edited after construction, small scope: on five small spaces, for every ordered pair of cells: every
+    neighbourhood query, `connect a b` (default key; Voronoi: key a,b), every query again, `disconnect a b`, every query
+    again — the memoised answers of the first round must not survive the edits"""
+    out = []
+    heads = ["scenario net 0 - 4 0-1 1-2 2-3", "scenario net 1 - 3 0-1 1-2", grid_header("vn", 0, (2, 3)),
+             grid_header("moore", 1, (1, 3)), grid_header("hex", 0, (2, 2)),
+             f"scenario vor - {len(FALLBACK_POINTS)} " + " ".join(f"p:{x},{y}" for x, y in FALLBACK_POINTS) + " " + " ".join(
+                 f"t:{a},{b},{c}" for a, b, c in voronoi_ok(FALLBACK_POINTS))]
+    for hd in heads:
+        h = Header(hd.split())
+        names = cell_names(h)
+        qs = []
+        for n in names:
+            qs += [f"nbhd {n} 1 0", f"nbhd {n} 2 1 k", f"nbprop {n}", f"nbhd {n} 2 0 m"]
+            if h.kind == "grid":
+                qs.append(f"mask {n} 1 1")
+        for a in names:
+            for b in names:
+                key = f"{a},{b}" if h.kind == "vor" else "-"
+                out.append(core.Scenario([hd] + qs + [f"connect {a} {b} {key}"] + qs + [f"conns {a}", f"disconnect {a} {b}"]
+                                         + qs + [f"conns {a}"], {"exhaustive": True}))
+    return out
+
+
 def gen_c07(R, tier):
     k = R.random()
     if k < 0.40:
@@ -1000,14 +1453,52 @@ def gen_c07(R, tier):
             qs.append(f"nbhd {n} {r} {R.randint(0, 1)} {R.choice('pkm')}")
         elif t < 0.85:
             qs.append(f"nbprop {n}")
-        elif t < 0.97:
+        elif t < 0.93:
             qs.append(f"mask {n} {R.choice([1, 2, 3])} {R.randint(0, 1)}")
+        elif t < 0.97:
+            # the neighbourhood as a CellCollection: cells / len / in / select_random_cell / bounded selections
+            l = gen_coll(R, h, names, agents=False).rstrip()
+            qs.append(l if l.split()[1].startswith("nb") else f"coll nb:{n}:{R.choice([1, 2])}:{R.randint(0, 1)} cells")
         else:
             qs.append(f"conns {h.n + 1 if h.kind != 'grid' else ','.join(str(d) for d in h.dims)}")
     # repetition and a second order of the same queries: answers must not depend on earlier queries
     qs += [R.choice(qs) for _ in range(len(qs) // 2)]
     R.shuffle(qs)
+    if R.random() < 0.35:
+        # connections edited between the queries (`Cell.connect` / `disconnect`): a query repeated after an edit near its
+        # cell must see the edited structure, not a memoised answer
+        spec = spec_connections(h)
+        nbrs = {fmt_name(c): [fmt_name(v) for v in m.values()] for c, m in spec.items()}
+        for _ in range(R.randint(1, 4)):
+            i = R.randrange(len(qs) + 1)
+            e = gen_edit(R, h, names, near=qs[R.randrange(max(1, i))].split()[1] if qs and R.random() < 0.7 else None, nbrs=nbrs)
+            again = [q for q in qs[:i] if q.split()[0] in ("nbhd", "nbprop", "mask")]
+            qs[i:i] = [e] + ([R.choice(again)] if again and R.random() < 0.8 else [])
     return core.Scenario(lines + qs)
+
+
+def gen_edit(R, h, names, near=None, nbrs=None):
+    """a `connect` / `disconnect` line; `near`: a cell name to edit at (or next to), `nbrs`: {name: names of connected cells}"""
+    a = near if near in names and R.random() < 0.8 else R.choice(names)
+    nb = (nbrs or {}).get(a) or []
+    if nb and near is not None and R.random() < 0.3:
+        a = R.choice(nb)  # one hop away from the queried cell: changes its radius >= 2 answers only
+        nb = (nbrs or {}).get(a) or []
+    b = R.choice(nb) if nb and R.random() < 0.6 else R.choice(names)
+    if R.random() < 0.04:
+        a = ",".join(str(d) for d in h.dims) if h.kind == "grid" else str(h.n + 1)  # no such cell
+    if R.random() < 0.4:
+        return f"disconnect {a} {b}"
+    k = R.random()
+    if k < 0.35:
+        key = "-"
+    elif h.kind == "grid":
+        key = ",".join(str(R.choice([-1, 0, 1, 1, 2])) for _ in h.dims)
+    elif h.kind == "net":
+        key = str(R.randrange(h.n + 2))
+    else:
+        key = f"{a.split(',')[0]},{R.randrange(h.n)}"
+    return f"connect {a} {b} {key}"
 
 
 def oracle_c07(sc, obs):
@@ -1026,6 +1517,18 @@ def oracle_c07(sc, obs):
                 assert c in conn[t].values(), "spec geometry must be symmetric"
     for line, o in zip(sc.lines[1:], obs[1:]):
         w = line.split()
+        if w[0] in EDITS:
+            # `Cell.connect` / `disconnect` after construction: from here on "connection hops" are those of the edited
+            # structure, whatever was asked (and memoised) before
+            want = expect_edit(conn, h, w)
+            if want is not None and o != want:
+                bad.append(f"edit: `{line}` -> {o}, expected {want}")
+            if want == "ok":
+                apply_edit(conn, h, w)
+            continue
+        if w[0] == "coll":
+            bad += oracle_coll(line, o, h, conn, cell_names(h), {}, h.cap)
+            continue
         if w[0] not in ("conns", "nbhd", "nbprop", "mask"):
             continue
         try:
@@ -1078,9 +1581,11 @@ def tags_c07(sc, obs):
         yield "op:" + w[0]
         if w[0] == "nbhd":
             yield f"radius:{w[2]}"
+        if w[0] in EDITS and o == "ok":
+            yield "branch:connections-edited" + ("-after-queries" if seen else "")
         if o.startswith("err"):
             yield f"reject:{w[0]}:{o.split()[1]}"
-        if o == "ok":
+        if o == "ok" and w[0] not in EDITS:
             yield f"empty-answer:{w[0]}"
         if l in seen:
             yield "repeated-query"
